@@ -128,6 +128,23 @@ func truthAtoms(p *Prog, fn *ssa.Function) ([]atom, bool) {
 // truthAtomsOf: the conjunction under which the bool value v (a phi of a short-circuit && or a
 // single comparison) is true.
 func truthAtomsOf(p *Prog, fn *ssa.Function, v ssa.Value) ([]atom, bool) {
+	conds, ok := truthCondsOf(p, fn, v)
+	if !ok {
+		return nil, false
+	}
+	var out []atom
+	for _, cd := range conds {
+		a, ok := mkAtom(cd)
+		if !ok {
+			return nil, false
+		}
+		out = append(out, a)
+	}
+	return out, true
+}
+
+// truthCondsOf: the same conjunction as truthAtomsOf, as the SSA conditions themselves.
+func truthCondsOf(p *Prog, fn *ssa.Function, v ssa.Value) ([]Cond, bool) {
 	g := p.G(fn)
 	var conds []Cond
 	if ph, ok := v.(*ssa.Phi); ok {
@@ -149,15 +166,7 @@ func truthAtomsOf(p *Prog, fn *ssa.Function, v ssa.Value) ([]atom, bool) {
 	} else {
 		conds = append(conds, Cond{V: v, Sense: true})
 	}
-	var out []atom
-	for _, cd := range conds {
-		a, ok := mkAtom(cd)
-		if !ok {
-			return nil, false
-		}
-		out = append(out, a)
-	}
-	return out, true
+	return conds, true
 }
 
 func ruleIsFull(c *Ctx) {
